@@ -17,6 +17,8 @@ var clientEntryPoints = []string{
 
 func init() {
 	register("C09", func(c *core.Ctx, tier string) {
+		wsInflatedBound(c, "C09.17")
+		requestRevalidatesTransport(c, "C09.18")
 		variadicIndexSafety(c, "C09.4b")
 		containerEffects(c, "C09.14")
 		baseTransportEffects(c, "C09.15")
